@@ -428,7 +428,7 @@ def case_batch(case, wctx):
 def run(ctx):
     quick = ctx.tier == "quick"
     rng = ctx.rng("gen")
-    n = 200 if quick else 5000
+    n = 200 if quick else 4000
     cases = [gen_case(rng, "shell" if i % 3 == 2 else "python") for i in range(n)]
     per = 10 if quick else 50
     ctx.rule = ("generated python (3 file fields, colliding base names over 3 directories) and shell (1-3 file fields, "
@@ -436,7 +436,7 @@ def run(ctx):
                 "is decided twice (view job.inputs, view body); non-trivial = at least one field whose mode excludes "
                 "`leave` and at least one file leaf observed; distinct = distinct (case, view)")
     res = ctx.pmap("vp.props.c34:case_batch", [{"cases": cases[i:i + per]} for i in range(0, n, per)],
-                   nproc=8 if quick else 16, timeout=300 if quick else 1500)
+                   nproc=8 if quick else 16, timeout=900 if quick else 3300)
     ctx.record_all(res)
     ctx.assumptions = ["sources and cache on one tmpfs (links possible, no CIFS); debug worker only; "
                        "python view job.inputs is read by a hook (python tasks do not read it themselves)"]
